@@ -126,6 +126,62 @@ def p_grammar(prog, case, budget):
             deadline=(time.time() + budget['case_s']) if budget.get('case_s') else None)
     return dict(stats=st, findings=findings, samples=samples, nontrivial=nontriv[0], case=case['name'])
 
+@pure('verbclass')
+def p_verbclass(prog, case, budget):
+    """a line that is one word of n symbolic bytes (optionally followed by concrete parameters): if the word contains a non-ASCII byte it is not
+    one of the protocol's verbs, so Command::from_message must answer UnknownCommand - never execute it as some command"""
+    st = Stats(); findings = []; samples = []; nontriv = [0]
+    n = case['n']; tail = case.get('tail', '')
+    bs = [z3.BitVec(f'v{i}', 8) for i in range(n)]
+    fsh = prog.resolve_crate_fn('command::Message::from_shared_str'); fmsg = prog.resolve_crate_fn('command::Command::from_message')
+    def run(M):
+        M.assume(utf8_valid_constraint(bs))
+        for b in bs: M.assume(z3.And(b != 10, b != 13, b != 32, b != 9, z3.UGT(b, 32)))
+        M.assume(bs[0] != 58)
+        M.assume(z3.Or([z3.UGE(b, 128) for b in bs]))
+        # Unicode white space inside the word is outside the claim (the parser trims and splits on it; see DESIGN.md 12.3)
+        for i in range(n):
+            if i + 1 < n: M.assume(z3.Not(z3.And(bs[i] == 0xC2, z3.Or(bs[i + 1] == 0x85, bs[i + 1] == 0xA0))))
+            if i + 2 < n:
+                M.assume(z3.Not(z3.And(bs[i] == 0xE1, bs[i + 1] == 0x9A, bs[i + 2] == 0x80)))
+                M.assume(z3.Not(z3.And(bs[i] == 0xE2, bs[i + 1] == 0x80, z3.Or(z3.And(z3.UGE(bs[i + 2], 0x80), z3.ULE(bs[i + 2], 0x8A)), bs[i + 2] == 0xA8, bs[i + 2] == 0xA9, bs[i + 2] == 0xAF))))
+                M.assume(z3.Not(z3.And(bs[i] == 0xE2, bs[i + 1] == 0x81, bs[i + 2] == 0x9F)))
+                M.assume(z3.Not(z3.And(bs[i] == 0xE3, bs[i + 1] == 0x80, bs[i + 2] == 0x80)))
+        line = Str(bs + list(tail.encode()))
+        r = M.run_fn(fsh, [line])
+        if r.variant != 0: return ('noparse', r)
+        return ('parsed', M.run_fn(fmsg, [Ref(Cell(r.fields[0]))]))
+    def on(r):
+        if r.kind == 'panic':
+            md = model_of(r.M)
+            if md is not None:
+                findings.append(dict(kind='panic', site='parser: ' + span_text(prog, r.value.site), what=r.value.msg, predicate='parser-panic', witness=dict(line=(model_bytes(md, bs) + tail.encode()).hex(), profile=prog.profile)))
+            return
+        if r.kind != 'ok': return
+        nontriv[0] += 1; st.obligations += 1
+        kind, res = r.value
+        bad = None
+        if kind == 'parsed':
+            if res.variant == 0: bad = 'executed as a command'
+            else:
+                e = res.fields[0]
+                en = prog.enums['CommandError'][e.variant] if 'CommandError' in prog.enums and isinstance(e.variant, int) else str(e.variant)
+                if en != 'UnknownCommand': bad = f'classified as {en} of some known command'
+        if bad is None:
+            st.discharged += 1
+            if len(samples) < 1:
+                md = model_of(r.M)
+                if md is not None: samples.append(dict(function='from_shared_str+from_message', line=(model_bytes(md, bs) + tail.encode()).decode('utf-8', 'replace'), outcome='unknown command'))
+            return
+        md = model_of(r.M)
+        if md is None: return
+        lb = model_bytes(md, bs) + tail.encode()
+        findings.append(dict(kind='mismatch', site='verb classification', what=f'a word with a non-ASCII character is {bad}', predicate='non-ascii-verb',
+                             witness=dict(line=lb.hex(), profile=prog.profile, classify=True)))
+    explore(prog, run, on, stats=st, prefix=case.get('prefix'), timeout_ms=budget['solver_ms'], max_steps=budget['steps'], max_paths=budget['paths'],
+            deadline=(time.time() + budget['case_s']) if budget.get('case_s') else None)
+    return dict(stats=st, findings=findings, samples=samples, nontrivial=nontriv[0], case=case['name'])
+
 @pure('roundtrip')
 def p_roundtrip(prog, case, budget):
     """a message with a symbolic last parameter, serialised as relays do, re-parses (reference grammar) to the same verb and parameters"""
@@ -253,6 +309,9 @@ def make_cases(tier, profile):
             cases.append(dict(name=f'round trip {verb} text of {n} bytes', pure='roundtrip', verb=verb, nparams=npar, n=n))
     for n in (0, 1, 3):
         cases.append(dict(name=f'encode {n} bytes', pure='encode', n=n))
+    for n in range(2, (5 if tier == 'quick' else 6) + 1):
+        cases.append(dict(name=f'verb of {n} bytes with a non-ASCII character', pure='verbclass', n=n))
+        cases.append(dict(name=f'verb of {n} bytes with a non-ASCII character, with parameters', pure='verbclass', n=n, tail=' bob :x'))
     spec = dict(sym_caps=False, sym_max_joins=False, sym_topic=False, sym_key=False, sym_limit=False, sym_lists=False, sym_flags=False, sym_ranks=False, sym_invites=False, sym_away=False,
                 sym_modes=False, plain_chans=['&y'], nicks=['alice', 'bob', 'carol'], operators=[('opname', 'goodpw', None)])
     from props.C05 import VERBS
@@ -287,7 +346,8 @@ def confirm(run, cands):
         reqs = []
         for f in fs:
             w = f['witness']
-            if 'line' in w: reqs.append(('from_shared_str', [bytes.fromhex(w['line'])]))
+            if w.get('classify'): reqs.append(('from_message', [bytes.fromhex(w['line'])]))
+            elif 'line' in w: reqs.append(('from_shared_str', [bytes.fromhex(w['line'])]))
             elif 'text' in w:
                 line = (w['verb'] + ' ' + ' '.join(['#chan'] * (w.get('nparams', 1) - 1))).strip().encode() + b' :' + bytes.fromhex(w['text'])
                 reqs.append(('relay_roundtrip', [line, b'nick!user@host']))
@@ -307,6 +367,9 @@ def confirm(run, cands):
                     want = 'Ok(Message { source: %s, command: "%s", params: [%s] })' % (
                         'None' if ref[0] is None else 'Some("%s")' % ref[0].decode('utf-8', 'replace'), ref[1].decode('utf-8', 'replace'), ', '.join('"%s"' % p.decode('utf-8', 'replace') for p in ref[2]))
                     fi.confirmed = (txt.replace('\\"', '"') != want) and not (txt.startswith('Err("Wrong source') )
+            elif rq[0] == 'from_message':
+                # confirmed when the real parser does not answer UnknownCommand either
+                fi.confirmed = 'UnknownCommand' not in txt
             elif rq[0] == 'relay_roundtrip':
                 parts = txt.split('\n')
                 fi.confirmed = len(parts) < 3 or parts[0].replace('source: None', 'X') != parts[2].replace('Ok(', '').rstrip(')').replace('source: Some("nick!user@host")', 'X')
